@@ -129,7 +129,7 @@ let f _id vs =
         (* one backend *)
         let check name (o : obs) (mres : wres) (m_tuples : otuple list) (m_log : ((cop * key) * ocond) list)
             (m_bytype : string -> string list list) (prev : (string list list * string list list) ref)
-            (hist : (int * string list list) list ref) (triggers : (bool * string) list) =
+            (hist : (int * string list list) list ref) (triggers : (bool * string * string list) list) =
           let where = Printf.sprintf "step %d %s" i name in
           (* --- implementation vs model --- *)
           if o.err <> errcode mres then diff "%s: error class impl=%d model=%d" where o.err (errcode mres);
@@ -143,29 +143,30 @@ let f _id vs =
             | None -> ()) types;
           (* --- property predicates on the implementation's observations --- *)
           let fails = ref [] in
-          let pf fmt = Printf.ksprintf (fun m -> fails := m :: !fails) fmt in
+          (* every failing predicate carries its kind; a trigger only explains the kinds it can cause *)
+          let pf kind fmt = Printf.ksprintf (fun m -> fails := (kind, m) :: !fails) fmt in
           let (pt, pl) = !prev in
           if prop_c12 then begin
             if o.err <> 0 && (o.tuples <> pt || o.asc <> pl) then
-              pf "%s: the request failed (class %d) but tuples or changelog changed" where o.err;
-            if must_fail_cmd && o.err = 0 then pf "%s: an invalid request was accepted" where;
+              pf "failed_but_changed" "%s: the request failed (class %d) but tuples or changelog changed" where o.err;
+            if must_fail_cmd && o.err = 0 then pf "invalid_accepted" "%s: an invalid request was accepted" where;
             if in_contract && fault = 0 && not must_fail_cmd then begin
               match spec_write ondup onmiss dels wrs (List.map otuple_of pt) with
-              | None -> if o.err = 0 then pf "%s: the request must fail (existing write / missing delete / other condition) but succeeded" where
+              | None -> if o.err = 0 then pf "must_fail_succeeded" "%s: the request must fail (existing write / missing delete / other condition) but succeeded" where
               | Some ((ts', dlog), wlog) ->
-                if o.err <> 0 then pf "%s: the request must succeed but failed with class %d" where o.err
+                if o.err <> 0 then pf (if o.err = 2 then "spurious_condition_conflict" else "must_succeed_failed") "%s: the request must succeed but failed with class %d" where o.err
                 else begin
                   if o.tuples <> sort_t (List.map tup_of ts') then
-                    pf "%s: tuples after the write are not (old - deletes) + writes: got %s want %s" where
+                    pf "effect_mismatch" "%s: tuples after the write are not (old - deletes) + writes: got %s want %s" where
                       (show_l show_t o.tuples) (show_l show_t (sort_t (List.map tup_of ts')));
                   let nd = List.length dlog and nw = List.length wlog in
-                  if not (is_prefix pl o.asc) then pf "%s: the changelog was not extended (old entries changed)" where
+                  if not (is_prefix pl o.asc) then pf "log_rewritten" "%s: the changelog was not extended (old entries changed)" where
                   else begin
                     let fresh = drop (List.length pl) o.asc in
                     let fd = take nd fresh and fw = drop nd fresh in
                     if List.length fresh <> nd + nw
                        || sort_t fd <> sort_t (List.map chg_of dlog) || fw <> List.map chg_of wlog then
-                      pf "%s: changelog extension is not exactly the applied items: got %s want deletes %s then writes %s" where
+                      pf "effect_mismatch" "%s: changelog extension is not exactly the applied items: got %s want deletes %s then writes %s" where
                         (show_l show_c fresh) (show_l show_c (List.map chg_of dlog)) (show_l show_c (List.map chg_of wlog))
                   end
                 end
@@ -173,16 +174,16 @@ let f _id vs =
             (* crash points: every snapshot before COMMIT shows the old state, the last one the new *)
             let nc = List.length o.crash in
             List.iteri (fun j c ->
-              if j < nc - 1 && not (c = 0 || c = 2) then pf "%s: crash before statement %d exposes a state that is not the old one (code %d)" where (j + 1) c;
-              if j = nc - 1 && not (c = 1 || c = 2) then pf "%s: state after the call is not what a reopen sees (code %d)" where c) o.crash
+              if j < nc - 1 && not (c = 0 || c = 2) then pf "crash" "%s: crash before statement %d exposes a state that is not the old one (code %d)" where (j + 1) c;
+              if j = nc - 1 && not (c = 1 || c = 2) then pf "crash" "%s: state after the call is not what a reopen sees (code %d)" where c) o.crash
           end;
           if prop_c15 then begin
             if sort_t (replay o.asc) <> o.tuples then
-              pf "%s: replaying the changelog gives %s, the store holds %s" where (show_l show_t (sort_t (replay o.asc))) (show_l show_t o.tuples);
-            if o.desc <> List.rev o.asc then pf "%s: descending changelog is not the reverse of ascending" where;
+              pf "replay" "%s: replaying the changelog gives %s, the store holds %s" where (show_l show_t (sort_t (replay o.asc))) (show_l show_t o.tuples);
+            if o.desc <> List.rev o.asc then pf "desc" "%s: descending changelog is not the reverse of ascending" where;
             List.iteri (fun j ty ->
               match List.nth_opt o.bytype j with
-              | Some l -> if l <> List.filter (has_type_prefix ty) o.asc then pf "%s: changelog filtered by type %s is not the filter of the full changelog" where ty
+              | Some l -> if l <> List.filter (has_type_prefix ty) o.asc then pf "type_filter" "%s: changelog filtered by type %s is not the filter of the full changelog" where ty
               | None -> ()) types;
             if in_contract && o.err = 0 && is_prefix pl o.asc then begin
               let fresh = drop (List.length pl) o.asc in
@@ -200,16 +201,14 @@ let f _id vs =
               let nD = List.length (List.filter (fun c -> List.hd c = "1") fresh)
               and nW = List.length (List.filter (fun c -> List.hd c = "0") fresh) in
               if not ok || not distinct || nD <> List.length gone || nW <> List.length came then
-                pf "%s: not one changelog entry per applied item: %d request deletes, %d request writes, entries %s, %d tuples gone, %d new" where
+                pf "effect_mismatch" "%s: not one changelog entry per applied item: %d request deletes, %d request writes, entries %s, %d tuples gone, %d new" where
                   (List.length dels) (List.length wrs) (show_l show_c fresh) (List.length gone) (List.length came)
-            end else if o.err = 0 && not (is_prefix pl o.asc) then pf "%s: old changelog entries changed" where
+            end else if o.err = 0 && not (is_prefix pl o.asc) then pf "log_rewritten" "%s: old changelog entries changed" where
           end;
-          (match !fails with
-           | [] -> ()
-           | fs ->
-             (match List.filter fst triggers with
-              | (_, flag) :: _ -> a.knowns <- (flag, String.concat " | " (List.rev fs)) :: a.knowns
-              | [] -> a.props <- List.rev_append fs a.props));
+          List.iter (fun (kind, m) ->
+            match List.filter (fun (on, _, kinds) -> on && List.mem kind kinds) triggers with
+            | (_, flag, _) :: _ -> a.knowns <- (flag, m) :: a.knowns
+            | [] -> a.props <- m :: a.props) (List.rev !fails);
           prev := (o.tuples, o.asc);
           hist := (as_int tick, o.asc) :: !hist
         in
@@ -222,8 +221,9 @@ let f _id vs =
            ms := ms';
            let bt ty = List.map (fun c -> chg_of (obs_change c)) (read_changes (bytes_to_coq ty) far_future N0 false ms') in
            check "memory" o mres (obs_tuples ms') (obs_log ms') bt pm hm
-             [ (trig_partial_match (dels @ wkeys) mem_before, "memory_partial_key_match");
-               (trig_mem_ctx ondup wrs mem_before, "memory_ignore_nil_vs_empty_context") ]
+             [ (trig_partial_match (dels @ wkeys) mem_before, "memory_partial_key_match",
+                ["must_fail_succeeded"; "effect_mismatch"]);
+               (trig_mem_ctx ondup wrs mem_before, "memory_ignore_nil_vs_empty_context", ["spurious_condition_conflict"]) ]
          | None -> ());
         (* sqlite *)
         let sql_before = !se in
@@ -241,13 +241,13 @@ let f _id vs =
            if o.crash <> [] && List.length o.crash <> List.length o.trace + 1 then
              diff "step %d sqlite: %d crash snapshots for %d statements" i (List.length o.crash) (List.length o.trace);
            check "sqlite" o sres (sql_obs_tuples t') (sql_obs_log t') bt ps hs
-             [ (trig_sql_ctx ondup wrs sql_before.en_comm, "sqlite_ignore_nil_context_conflict") ]
+             [ (trig_sql_ctx ondup wrs sql_before.en_comm, "sqlite_ignore_nil_context_conflict", ["spurious_condition_conflict"]) ]
          | None -> ());
         (* both backends started this step from the same observable state, the request is outside
            the datastore contract (repeated key / malformed key below the command layer), and the
            backends answered differently *)
         (match parse_obs om_v, parse_obs os_v with
-         | Some o1, Some o2 when mode = 1 && not in_contract && fault = 0 ->
+         | Some o1, Some o2 when prop_c12 && mode = 1 && not in_contract && fault = 0 ->
            let same_before = sort_t (List.map tup_of (obs_tuples mem_before)) = sort_t (List.map tup_of (sql_obs_tuples sql_before.en_comm)) in
            if same_before && ((o1.err = 0) <> (o2.err = 0) || o1.tuples <> o2.tuples) then
              a.knowns <- ("datastore_out_of_contract_backends_disagree",
@@ -281,8 +281,18 @@ let f _id vs =
     (match List.rev a.diffs, List.rev a.props, List.rev a.knowns with
      | d :: _, _, _ -> "DIFF " ^ cut d
      | [], p :: _, _ -> "PROP " ^ cut p
-     | [], [], (flag, m) :: _ -> "KNOWN " ^ flag ^ " " ^ cut m
-     | [], [], [] -> "OK")
+     | [], [], ks ->
+       (* one verdict per history: report the rarest listed finding present *)
+       let prio = ["sqlite_ignore_nil_context_conflict"; "memory_partial_key_match";
+                   "memory_ignore_nil_vs_empty_context"; "datastore_out_of_contract_backends_disagree"] in
+       let pick = List.fold_left (fun acc p -> match acc with
+           | Some _ -> acc
+           | None -> List.find_opt (fun (f, _) -> f = p) ks) None prio in
+       (match pick, ks with
+        | Some (flag, m), _ -> "KNOWN " ^ flag ^ " " ^ cut m
+        | None, (flag, m) :: _ -> "KNOWN " ^ flag ^ " " ^ cut m
+        | None, [] -> "OK")
+     )
   | _ -> "DIFF malformed-record"
 
 let () = run_oracle f
